@@ -333,6 +333,17 @@ def internal_harness(ctx, cfg):
             for s in range(p.N):
                 area0[s] = z3.Real(f"area{p.ids[s]}")
                 g.nattr[s]["area"] = SReal(area0[s])
+        iou0 = {}
+        if cfg.get("iou") and p.seg is not None:
+            # an edge feature that an editing session has enabled: stored values arbitrary reals, loaded - not recomputed
+            p.tr.enable_features(["iou"], recompute=False)
+            fd0 = X._fd(p.tr)
+            for a in range(p.N):
+                for b in range(p.N):
+                    if a != b:
+                        iou0[(a, b)] = z3.Real(f"iou{p.ids[a]}_{p.ids[b]}")
+                        g.eattr[(a, b)] = {"iou": SReal(iou0[(a, b)])}
+        ctx.input("iou", {f"{a},{b}": v for (a, b), v in iou0.items()})
         ctx.input("node_order", cfg.get("node_order"))
         ctx.input("op", "roundtrip_internal")
         ctx.input("select", None)
@@ -381,6 +392,11 @@ def internal_harness(ctx, cfg):
                                                                         if ok else [])), "C14")
     else:
         ctx.oblige("C14.same_segmentation", tr2.segmentation is None, "C14")
+    if iou0:
+        g2 = tr2.graph
+        ctx.oblige("C14.same_loaded_edge_features",
+                   And([same_value(g2.edges[p.ids[a], p.ids[b]].get("iou"), SReal(v)) for (a, b), v in iou0.items()
+                        if g2.has_edge(p.ids[a], p.ids[b])]), "C14")
     sc2 = None if tr2.scale is None else list(tr2.scale)
     ctx.oblige("C14.same_scale", same_value(sc2, p.scale0), "C14")
     ctx.oblige("C14.same_registry", X._fd(tr2) == fd0 and tr2.ndim == p.tr.ndim, "C14")
@@ -499,6 +515,11 @@ def _replay_internal(inp, ob, tmp):
             tr.graph.nodes[n][POS] = np.array(vals, dtype=float) if inp.get("pos_ndarray") else list(vals)
         if area:
             tr.graph.nodes[n]["area"] = area[n - 1]
+    iou = {tuple(int(x) + 1 for x in k.split(",")): M._num(v) for k, v in (inp.get("iou") or {}).items()}
+    if iou:
+        tr.enable_features(["iou"], recompute=False)
+        for e in tr.graph.edges:
+            tr.graph.edges[e]["iou"] = iou[e]
 
     def fd(t):
         f = t.features
@@ -511,6 +532,7 @@ def _replay_internal(inp, ob, tmp):
                 for n in t.graph.nodes}
 
     g0, a0, fd0 = nx.DiGraph(tr.graph), obs(tr), fd(tr)
+    e0 = {e: tr.graph.edges[e].get("iou") for e in tr.graph.edges}
     seg0 = None if tr.segmentation is None else np.array(tr.segmentation)
     scale0 = copy.deepcopy(tr.scale)
     exc = tr2 = None
@@ -535,6 +557,9 @@ def _replay_internal(inp, ob, tmp):
         return sorted(g2.edges) != sorted(g0.edges), detail
     if ob in key:
         return any(not M._eq(a0[n][key[ob]], a2[n][key[ob]]) for n in common), detail
+    if ob == "C14.same_loaded_edge_features":
+        return any(e in g2.edges and not M._eq(e0[e], g2.edges[e].get("iou")) for e in e0), \
+            detail + f" iou {e0} -> { {e: g2.edges[e].get('iou') for e in g2.edges} }"
     if ob == "C14.same_segmentation":
         s2 = tr2.segmentation
         if seg0 is None or s2 is None:
